@@ -138,7 +138,7 @@ def check(cx):
 
     effs = effects(w, prog, roots=(CHANOBJ,))
     effs = [(e, x) for e, x in effs if x['op'] not in ('take', 'get_mut')]
-    locs = [e for e in w.events if e.kind == 'local_mut']
+    locs = _announce_view(w, mchar, all_letters)
 
     r2 = cx.rule('R8.2', 'per-letter privilege guards every effect', floor=28, kind='required-guard')
     r4 = cx.rule('R8.4', 'rank changes only on members', floor=10, kind='required-guard')
@@ -310,6 +310,82 @@ def check(cx):
 
 
 PARAM_LETTERS = 'beIovhqalk'
+
+
+class _App:
+    """one append to an announcement accumulator, as the rules see it"""
+    kind = 'local_mut'
+
+    def __init__(self, ev, pc, local, method, args, seq):
+        self.ev, self.pc, self.node, self.loops, self.guards, self.fn = ev, pc, ev.node, ev.loops, ev.guards, ev.fn
+        self.seq = seq
+        self.data = dict(ev.data, local=local, method=method, args=args)
+
+
+def _announce_view(w, mchar, letters):
+    """the appends to local accumulators with (a) conditional values expanded per case, (b) an appended mode character variable
+       replaced by each concrete letter it can be on that path, and (c) runs of adjacent literal pieces on the same accumulator
+       merged into one literal - so that `s.push(' '); s.push(if set {'+'} else {'-'}); s.push(mchar); s.push(' ')` reads
+       like the literal `" +o "` it builds"""
+    base = local_muts(w)
+    slots = []          # (event, [(pc, arg)]) in program order
+    for e in base:
+        a = e.data.get('args') or []
+        if e.data['method'] not in ('push', 'push_str', 'add_assign') or not a:
+            slots.append((e, None))
+            continue
+        alts = []
+        if a[0] == mchar:
+            for L in letters:
+                c = And(e.pc, Atom(('eq', mchar, ('lit', L))))
+                if sat(c) is not None:
+                    alts.append((c, ('lit', L)))
+        else:
+            alts.append((e.pc, a[0]))
+        slots.append((e, alts))
+    out = []
+    i = 0
+    n = len(slots)
+    while i < n:
+        e, alts = slots[i]
+        if alts is None:
+            out.append(e)
+            i += 1
+            continue
+        is_lit = all(isinstance(x[1], tuple) and x[1][0] == 'lit' and isinstance(x[1][1], str) for x in alts)
+        if not is_lit:
+            for pc_, arg in alts:
+                out.append(_App(e, pc_, e.data['local'], e.data['method'], [arg], e.seq))
+            i += 1
+            continue
+        # extend the run: following slots on the same accumulator that are literals too (events expanded from one site share seq)
+        run = [(e, alts)]
+        j = i + 1
+        while j < n and slots[j][1] is not None and slots[j][0].data['local'] == e.data['local'] and \
+                all(isinstance(x[1], tuple) and x[1][0] == 'lit' and isinstance(x[1][1], str) for x in slots[j][1]):
+            run.append(slots[j])
+            j += 1
+        # group alternatives that come from the same site (same seq) into one position
+        positions = []
+        for ev_, al_ in run:
+            if positions and positions[-1][0] == ev_.seq:
+                positions[-1][1].extend(al_)
+            else:
+                positions.append([ev_.seq, list(al_), ev_])
+        combos = [(T, '')]
+        for seq_, al_, ev_ in positions:
+            nxt = []
+            for pc0, txt in combos:
+                for pc1, arg in al_:
+                    c = And(pc0, pc1)
+                    if len(nxt) < 64 and sat(c) is not None:
+                        nxt.append((c, txt + arg[1]))
+            combos = nxt
+        last = positions[-1][2]
+        for pc_, txt in combos:
+            out.append(_App(last, pc_, e.data['local'], 'push_str', [('lit', txt)], last.seq))
+        i = j
+    return out
 
 
 def _next_events(w):
